@@ -479,6 +479,9 @@ struct FixSpec {
   with_fix: bool,
   /// a `constraints` section (JSON) for targets that capture single variables
   constraints: Option<&'static str>,
+  /// a `files:` / `ignores:` section that selects every file of the case (`src/*.js`): a rule that is
+  /// applied "depending on the path" next to rules that always apply
+  path_keys: Option<&'static str>,
 }
 
 /// constraints per target: the `rule` part alone matches more than rule + constraints do, so a front
@@ -512,6 +515,11 @@ impl FixSpec {
     }
     if let Some(c) = self.constraints {
       d["constraints"] = serde_json::from_str::<Value>(c).unwrap();
+    }
+    if let Some(k) = self.path_keys {
+      for (key, val) in serde_json::from_str::<Value>(k).unwrap().as_object().unwrap() {
+        d[key] = val.clone();
+      }
     }
     if self.transform {
       // U = the text of the match's first line capitalised is too fancy: a plain replace
@@ -575,6 +583,11 @@ fn gen_fix_spec(rng: &mut Rng, id: &str, always_fix: bool) -> FixSpec {
     severity: *rng.pick(&["error", "warning", "warning", "info", "hint"]),
     id: id.to_string(),
     with_fix: always_fix || rng.chance(1, 2),
+    path_keys: if rng.chance(1, 4) {
+      Some(*rng.pick(&[r#"{"files": ["**/*.js"]}"#, r#"{"ignores": ["**/vendor/**"]}"#, r#"{"files": ["src/**"], "ignores": ["**/*.ts"]}"#]))
+    } else {
+      None
+    },
     constraints: match CONSTRAINTS.iter().find(|c| c.0 == target) {
       Some((_, cs)) if rng.chance(1, 2) => Some(*rng.pick(cs)),
       _ => None,
@@ -659,6 +672,8 @@ struct EditObs {
   result: Value,
   same_start: bool,
   n_matches: usize,
+  /// the edits of `Node::replace_all` (oracle only: not part of the op the model answers)
+  lib_all: Value,
 }
 
 fn parse_json_stream(out: &str) -> Vec<Value> {
@@ -735,6 +750,8 @@ fn edit_case(v: &Variant, spec_yaml: &str, es: Option<(usize, usize)>, ee: Optio
       let owned = again.remove(0).matcher.fixer.take().expect("fixer");
       rootn.replace(&rule.matcher, owned).map(|e| edit_triple(&e)).unwrap_or(Value::Null)
     });
+    // `replace_all`: the library's replace-every-match call (no front end of the CLI uses it)
+    let lib_all = guard(|| json!(rootn.replace_all(&rule.matcher, fixer).iter().map(edit_triple).collect::<Vec<_>>()));
     let astgrep = guard(|| {
       let mut g2 = SupportLang::JavaScript.ast_grep(src.as_str());
       match g2.replace(&rule.matcher, fixer) {
@@ -801,7 +818,7 @@ fn edit_case(v: &Variant, spec_yaml: &str, es: Option<(usize, usize)>, ee: Optio
       "esx": es.map(|c| json!([c.0, c.1])), "eex": ee.map(|c| json!([c.0, c.1])), "ms": ms});
     let result = json!({"json": json_edits, "update": update, "snap": snap, "lib_val": lib_val, "lib_ref": lib_ref,
       "astgrep": astgrep, "diag": diag, "quick": quick, "fixall": fixall});
-    ret.push(EditObs { args, result, same_start, n_matches });
+    ret.push(EditObs { args, result, same_start, n_matches, lib_all });
   }
   Some(ret)
 }
@@ -834,6 +851,17 @@ fn edit_oracle(obs: &EditObs, expanded: bool) -> Vec<(String, Value)> {
   }
   if r["lib_ref"] != first {
     fail("json/lib-by-ref", json!({"json": first, "lib": r["lib_ref"]}));
+  }
+  // `replace_all` proposes, for the outermost matches, the very edits the CLI announces
+  match obs.lib_all.as_array() {
+    None => fail("json/lib-replace-all", json!({"lib": obs.lib_all})),
+    Some(all) => {
+      let announced: Vec<Value> = cli.iter().map(|(s, e, t)| json!([s, e, t])).collect();
+      let foreign: Vec<&Value> = all.iter().filter(|e| !announced.contains(e)).collect();
+      if !foreign.is_empty() || all.first().cloned().unwrap_or(Value::Null) != first || (all.is_empty() != cli.is_empty()) {
+        fail("json/lib-replace-all", json!({"json": announced, "replace_all": all}));
+      }
+    }
   }
   // AstGrep::replace and the snapshot of `sg test`: the text after the first edit
   let after_first = cli.first().and_then(|(s, e, t)| splice(src, *s, *e, t)).map(|s| json!(s)).unwrap_or(Value::Null);
